@@ -56,7 +56,9 @@ CrashVerdict(ln) ==
       fin == NormState(ln.final)
       exp == Apply(db0, ln.req)
   IN
-     (IF DropIdle(fin) = DropIdle(db0) \/ DropIdle(fin) = DropIdle(exp.s) THEN {} ELSE {"C18_PartialEffect"})
+     \* all or nothing (up to how far a generation moved, see Props!SameUpToRetriedGens)
+     (IF DropIdle(fin) = DropIdle(db0) \/ SameUpToRetriedGens(DropIdle(db0), DropIdle(exp.s), DropIdle(fin))
+      THEN {} ELSE {"C18_PartialEffect"})
 \cup (IF C08_Inv(DropIdle(fin)) THEN {} ELSE {"C18_RefIntegrity"})
 \cup (IF C09_Inv(fin) THEN {} ELSE {"C18_Forest"})
 \cup (IF \A pk \in AllPairs(fin) : Over(fin, pk[1], pk[2]) =>
